@@ -59,6 +59,21 @@ fn drive(args: &[String]) {
     std::fs::create_dir_all(&out).unwrap();
     let services: Vec<pilota_build::IdlService> = entries.iter().map(|p| pilota_build::IdlService::from_path(p.clone())).collect();
     let split = mode == "split" || mode == "workspace_split";
+    // option variants of single-file mode: prune unused items (the builder's default), keep unknown fields
+    let ignore_unused = mode == "single_iu" || mode == "single_touch";
+    // `touch`: keep some otherwise unused items of several files (printed family only: its item names are known)
+    let mut touches: Vec<(PathBuf, Vec<String>)> = vec![];
+    if mode == "single_touch" {
+        for e in &entries {
+            let stem = e.file_stem().map(|s| s.to_string_lossy().to_string()).unwrap_or_default();
+            if let Some(i) = stem.strip_prefix("fam").and_then(|x| x.parse::<usize>().ok()) {
+                touches.push((e.clone(), vec![format!("FooBar{}", i), "Common".to_string(), format!("U{}", i), format!("foo_bar{}", i)]));
+            } else if stem == "fambig" {
+                touches.push((e.clone(), (0..330).step_by(7).map(|k| format!("Big{}", k)).collect()));
+            }
+        }
+    }
+    let keep = mode == "single_keep";
     let output = if mode.starts_with("workspace") {
         std::fs::File::create(out.join("Cargo.toml")).unwrap();
         pilota_build::Output::Workspace(out.clone())
@@ -68,14 +83,20 @@ fn drive(args: &[String]) {
     let inc = include.map(|d| vec![d]).unwrap_or_default();
     match source {
         "protobuf" => {
-            let mut b = pilota_build::Builder::protobuf().ignore_unused(false).split_generated_files(split);
+            let mut b = pilota_build::Builder::protobuf().ignore_unused(ignore_unused).split_generated_files(split);
             if !inc.is_empty() {
                 b = b.include_dirs(inc);
             }
             b.compile_with_config(services, output);
         }
         _ => {
-            let mut b = pilota_build::Builder::thrift().ignore_unused(false).split_generated_files(split);
+            let mut b = pilota_build::Builder::thrift().ignore_unused(ignore_unused).split_generated_files(split);
+            if keep {
+                b = b.keep_unknown_fields(entries.clone());
+            }
+            if !touches.is_empty() {
+                b = b.touch(touches.clone());
+            }
             if !inc.is_empty() {
                 b = b.include_dirs(inc);
             }
@@ -192,7 +213,7 @@ fn corpora(scratch: &Path, tier_thorough: bool) -> Vec<Corpus> {
         source: "thrift",
         include: None,
         entries: ["article", "author", "image"].iter().map(|n| ws_in.join(format!("{}.thrift", n))).collect(),
-        modes: vec!["workspace", "workspace_split", "single"],
+        modes: vec!["workspace", "workspace_split", "single", "single_iu"],
     });
     v.push(Corpus {
         name: "repo_unknown_fields".into(),
@@ -222,10 +243,10 @@ fn corpora(scratch: &Path, tier_thorough: bool) -> Vec<Corpus> {
     let fam_dir = scratch.join("family");
     let n = if tier_thorough { 9 } else { 7 };
     let fam = print_family(&fam_dir, n);
-    v.push(Corpus { name: "family_all_entries".into(), source: "thrift", include: Some(fam_dir.clone()), entries: fam.clone(), modes: vec!["single", "split", "workspace", "workspace_split"] });
+    v.push(Corpus { name: "family_all_entries".into(), source: "thrift", include: Some(fam_dir.clone()), entries: fam.clone(), modes: vec!["single", "split", "workspace", "workspace_split", "single_iu", "single_keep", "single_touch"] });
     let pfam_dir = scratch.join("pfamily");
     let pfam = print_pfamily(&pfam_dir, if tier_thorough { 4 } else { 3 });
-    v.push(Corpus { name: "pfamily_all_entries".into(), source: "protobuf", include: Some(pfam_dir), entries: pfam, modes: vec!["single", "split"] });
+    v.push(Corpus { name: "pfamily_all_entries".into(), source: "protobuf", include: Some(pfam_dir), entries: pfam, modes: vec!["single", "split", "single_iu"] });
     v.push(Corpus { name: "family_last_entry".into(), source: "thrift", include: Some(fam_dir), entries: vec![fam[fam.len() - 2].clone()], modes: vec!["single", "workspace"] });
     v.push(Corpus { name: "family_big_namespace".into(), source: "thrift", include: None, entries: vec![fam.last().unwrap().clone()], modes: vec!["single", "split"] });
     v
@@ -512,7 +533,7 @@ fn run(args: &[String]) {
         eprintln!("phase canonical done at {:.1}s", t0.elapsed().as_secs_f64());
     }
     // 2. exploration
-    let per_pair = if thorough { 300 } else { 28 };
+    let per_pair = if thorough { 300 } else { 22 };
     let mut st = seed ^ 0xC17;
     let mut jobs: Vec<RunCfg> = vec![];
     for (ci, c) in cs.iter().enumerate() {
@@ -789,6 +810,9 @@ fn find_corpus<'a>(cs: &'a [Corpus], name: &str) -> Option<(usize, &'a Corpus)> 
 
 fn static_mode(m: &str) -> &'static str {
     match m {
+        "single_iu" => "single_iu",
+        "single_touch" => "single_touch",
+        "single_keep" => "single_keep",
         "split" => "split",
         "workspace" => "workspace",
         "workspace_split" => "workspace_split",
